@@ -30,6 +30,7 @@ class Point:
         self.positive_syms = set(positive_syms)
         self.integer_inputs = integer_inputs
         self.input_fn = input_fn
+        self.degenerate = False  # ties on purpose: coordinates repeated exactly / nearly / zero (boundaries of row masks)
 
     def inp(self, name, idx):
         k = (name, idx)
@@ -37,6 +38,11 @@ class Point:
             v = self.input_fn(self, name, idx) if self.input_fn is not None else None
             if v is not None:
                 self.inputs[k] = v
+            elif self.degenerate and self.inputs and self.rng.random() < 0.5:
+                prev = [x for (n2, _), x in sorted(self.inputs.items()) if n2 == name] or list(self.inputs.values())
+                base = self.rng.choice(prev)
+                r = self.rng.random()
+                self.inputs[k] = base if r < 0.6 else base + self.rng.choice([1e-7, -1e-7, 1e-4]) if r < 0.9 else 0.0
             elif self.integer_inputs:
                 self.inputs[k] = float(self.rng.randint(-4, 4))
             else:
@@ -258,12 +264,15 @@ def bars_input(pt: "Point", name, idx):
 
 
 def equivalent(a: Expr, b: Expr, trials: int = 24, seed: int = 0, tol: float = 1e-9, positive_syms=(),
-               nrows: int = 3, integer_inputs=False, input_fn=None) -> Tuple[Optional[bool], Optional[dict]]:
-    """(True, None) equal on all trials; (False, witness) differ; (None, reason) not evaluable"""
+               nrows: int = 3, integer_inputs=False, input_fn=None, degenerate=False) -> Tuple[Optional[bool], Optional[dict]]:
+    """(True, None) equal on all trials; (False, witness) differ; (None, reason) not evaluable.
+    degenerate=True adds as many trials again on inputs with exact and near ties between coordinates (points on the
+    diagonal, repeated points, zeros): the places where a condition that selects rows changes its verdict."""
     rng = random.Random(seed * 7919 + 17)
-    for k in range(trials):
+    for k in range(trials * (2 if degenerate else 1)):
         pt = Point(rng, nrows=nrows, positive_syms=positive_syms, integer_inputs=integer_inputs and k % 2 == 0,
                    input_fn=input_fn)
+        pt.degenerate = degenerate and k >= trials
         try:
             va = ev(a, pt)
             vb = ev(b, pt)
